@@ -112,6 +112,13 @@ class HeapMixin:
                 raise mk_exc(AttributeError, attr, where=fr.where())
         if type(obj).__name__ == "SuperProxy":
             return BoundMethod(obj, attr)
+        if type(obj).__name__ == "SymGiven":
+            from .models_cli import unwrap_given
+
+            return self.getattr_value(unwrap_given(self, obj), attr, fr)
+        if type(obj).__module__ == "argparse":
+            # the real parser object the code builds: attribute access is native
+            return getattr(obj, attr)
         if isinstance(obj, Closure):
             raise Unsupported(f"attribute {attr} of closure")
         raise Unsupported(f"getattr({obj!r}, {attr})")
@@ -161,6 +168,10 @@ class HeapMixin:
         return [k for k in self.reg.fns if k.startswith(pre)]
 
     def setattr_value(self, obj, attr, v, fr):
+        if type(v).__name__ == "SymGiven":
+            from .models_cli import unwrap_given
+
+            v = unwrap_given(self, v)
         if isinstance(obj, SymOpt):
             if self.ctx.branch(obj.is_none, f"isNone@{fr.line}"):
                 raise mk_exc(AttributeError, "NoneType", where=fr.where())
@@ -177,7 +188,15 @@ class HeapMixin:
                 if isinstance(raw, property):
                     if raw.fset is None:
                         raise mk_exc(AttributeError, f"can't set attribute {attr}", where=fr.where())
-                    self.call_repo_function(raw.fset, [obj, v], {}, fr, awaited=False)
+                    from .source import module_info
+
+                    mi = module_info(k.__module__)
+                    fs = raw.fset
+                    key = f"{k.__qualname__}.{fs.__name__}" + (".setter" if fs.__name__ == attr else "")
+                    node = mi.defs.get(key) or mi.defs.get(f"{k.__qualname__}.{fs.__name__}")
+                    if node is None:
+                        raise Unsupported(f"no source for setter of {attr}")
+                    self.run_function(node, mi, f"{k.__module__}:{key}", [obj, v], {})
                     return
                 if raw is not None:
                     break
@@ -266,7 +285,12 @@ class HeapMixin:
             except IndexError:
                 raise mk_exc(IndexError, "list index out of range", where=fr.where())
         if obj.sym is None and is_sym(key):
-            raise Unsupported("symbolic index into concrete list")
+            if not obj.items:
+                raise mk_exc(IndexError, "list index out of range", where=fr.where())
+            try:
+                return self.seq_index(ops.to_seq(ctx, obj), key, fr)
+            except Unsupported:
+                raise Unsupported("symbolic index into concrete list")
         n_items = len(obj.items)
         if not is_sym(key) and 0 <= key < n_items:
             return obj.items[key]
@@ -390,6 +414,8 @@ class HeapMixin:
 
     def slice_value(self, obj, lo, hi, fr):
         ctx = self.ctx
+        if isinstance(obj, list):
+            obj = PList(obj)
         if isinstance(obj, SymOpt):
             if ctx.branch(obj.is_none, f"isNone@{fr.line}"):
                 raise mk_exc(TypeError, "NoneType", where=fr.where())
